@@ -68,9 +68,10 @@ def component_ops(ctx: Ctx, table: list, rng: random.Random) -> list[dict]:
             if mode == 6:       # white space and lower case inside components
                 bank = " ".join(bank).lower() if bank else bank
                 acct = acct[:1] + " \t" + acct[1:].lower()
-            if mode == 7:       # an illegal character somewhere
+            if mode == 7:       # an illegal character somewhere (through both builders)
+                op = "bban.from_components" if (i // 9) % 2 else "iban.generate"
                 which = rng.choice(("bank", "branch", "acct"))
-                ch = rng.choice(odd[1:])
+                ch = rng.choice(odd[1:] + ["ß", "ı"])
                 if which == "bank" and bank:
                     bank = bank[:-1] + ch
                 elif which == "branch" and branch:
